@@ -336,7 +336,11 @@ def run(tier, seed, replay=None):
         s.add("ret", -1, 13).call("execv", name + ".2")
         s.add("ret", 0, 0).argv(None).call("execve", name + ".3")
         s.add("endfork")
-    r = drv.run_script(bs, s, os.path.join(bs["root"], "sl"), tag="sl", timeout=300, env_extra={"REC_SYSLOG": "1"})
+    # every hostile line token once more, this time in front of the syslog output
+    for ti, tk in enumerate(toks):
+        s.add("emit", "item:tok%d" % ti).add("fork").add("ini", drv.hx(b"[snoopy]\noutput = syslog\n" + tk + b"\n"))
+        s.add("ret", -1, 2).argv([b"prog", b"x" * 3000, b"y"]).call("execve", "tok%d.1" % ti).add("endfork")
+    r = drv.run_script(bs, s, os.path.join(bs["root"], "sl"), tag="sl", timeout=600, env_extra={"REC_SYSLOG": "1"})
     cur, seen = None, {}
     for e in r["events"]:
         if e["ev"] == "mark" and e["label"].startswith("item:"):
@@ -380,12 +384,29 @@ def run(tier, seed, replay=None):
                     bad.append("%s: message %r" % (e["label"], bytes.fromhex(sl.get("last", ""))[:40]))
         if bad:
             rep.violation("syslogoutput:%s" % name, "output = syslog (build with --enable-output-syslog), configuration %r: %s" % (extra[:60], "; ".join(bad[:4])), dict(config=repr(extra[:200]), problems=bad[:10]))
+    for ti, tk in enumerate(toks):
+        total += 1
+        o = seen.get("tok%d" % ti)
+        bad = None
+        if o is None:
+            bad = "no observation (driver died?)"
+        elif o["signal"]:
+            bad = "the calling process died with signal %d" % o["signal"]
+        elif len(o["rets"]) != 1 or o["rets"][0]["n_real"] != 1:
+            bad = "the call did not reach the real exec exactly once"
+        else:
+            sl = o["rets"][0].get("syslog") or {}
+            if sl.get("open_at_exec") != 0 or sl.get("open_after") != 0 or sl.get("opens") != sl.get("closes") or sl.get("msgs", 0) > 1:
+                bad = "syslog(3) state of the caller after the call: %r" % ({k: sl.get(k) for k in ("open_at_exec", "open_after", "opens", "closes", "msgs")},)
+        if bad:
+            kind = re.sub(rb"[^a-z_=:\[\" ]", b"", tk[:18]).decode() or "bytes"
+            rep.violation("syslogoutput:config:%s" % kind, "output = syslog with the snoopy.ini line %r: %s" % (tk[:60], bad), dict(line=repr(tk[:200]), line_length=len(tk)))
     for f in sorted(os.listdir(os.path.join(bs["root"], "sl"))):
         if ".asan" in f or ".ubsan" in f:
             txt = open(os.path.join(bs["root"], "sl", f), errors="replace").read()
             m = re.search(r"(ERROR: AddressSanitizer: [^\n]*|runtime error: [^\n]*)", txt)
             rep.violation("sanitizer:syslogoutput", "sanitizer report with output = syslog: %s" % (m.group(1) if m else txt[:150]), dict(report=txt[:1500]))
-    rep.cov["syslog_output_calls"] = 3 * len(slcases)
+    rep.cov["syslog_output_calls"] = 3 * len(slcases) + len(toks)
     rep.cov["evaluations"] = total
     rep.cov["traces_validated_against_impl"] = total
     rep.cov["distinct_nontrivial"] = nontriv
